@@ -610,3 +610,11 @@ Proof.
   intros cl Hcl. specialize (Hc th Hth cl Hcl). apply in_map_iff in Hc as [[name m] [E Hm]]. simpl in E. subst m.
   unfold table_ok in Ht. rewrite forallb_forall in Ht. apply (Ht _ Hm).
 Qed.
+
+(* a caller removing a node (delete_node) while nobody is inside the store keeps the invariant: ids come from the
+   counter, so a gap left by a removal is never filled again *)
+Lemma remove_keeps_Inv c s l : Inv s -> Inv (fst (do_act (XRemove c) s l)).
+Proof.
+  intro H. simpl. apply (Inv_P _ 0). apply (Inv_P s 0) in H.
+  exact (P_filter s 0 _ _ H).
+Qed.
